@@ -126,6 +126,16 @@ CHECKS = {
              "functions (harness re-evaluation, 2 decimals), total = sum of entries, extracted sum = selected "
              "entries.",
         design="7 C19", note="energy polynomials are evaluated in float by the harness; TLC decides the accounting on integers x100"),
+    "C18": dict(
+        spec="QTypes.tla + MC_QTypes + Trace_QModel",
+        text="Real one- and two-layer models (dense, conv1d, conv2d, depthwise; fixed/po2/ternary/binary kernels; "
+             "with/without bias; quantized inputs) are loaded with extremal sign-aligned and random weights and "
+             "inputs; intermediate sub-models yield the real pre-activation, weight, bias and activation tensors as "
+             "exact dyadics, and the TLC trace specification checks, with the value lattices of QTypes.tla, that "
+             "every one of them is representable in the type QTools reports for it (accumulator incl. bias adder "
+             "and the type handed to the next layer), and that 2^analyze_accumulator >= the observed output "
+             "magnitude; the type rules themselves are model-checked in MC_QTypes.",
+        design="7 C18", note="auto-po2 adjusted accumulator entries are not yet exercised"),
 }
 
 
